@@ -176,6 +176,15 @@ def mk_comm(op, a, b):
             return const("int", a[2] & b[2])
         if op == "bitor":
             return const("int", a[2] | b[2])
+    if op == "add":
+        # (c1 + x) + c2 -> (c1+c2) + x
+        for x, y in ((a, b), (b, a)):
+            if x[0] == "const" and x[1] == "int" and y[0] == "add" and y[1][0] == "const" and y[1][1] == "int":
+                return mk_comm("add", const("int", x[2] + y[1][2]), y[2])
+        if a[0] == "const" and a[1] == "int" and a[2] == 0:
+            return b
+        if b[0] == "const" and b[1] == "int" and b[2] == 0:
+            return a
     if _key(a) > _key(b):
         a, b = b, a
     return (op, a, b)
@@ -609,7 +618,7 @@ def show(e):
     if k == "argvar":
         return "a%d*" % e[1]
     if k == "mut":
-        return show(e[1]) + "'" + (str(e[2]) if e[2] > 1 else "")
+        return show(e[1]) + "\u2032" + (str(e[2]) if e[2] > 1 else "")
     if k == "var":
         return "v%d" % e[1]
     if k == "local":
